@@ -98,6 +98,12 @@ with open(dst, 'w', encoding='utf-8') as f:
 '''
 
 
+def asm_source(sym: str) -> str:
+    """A tiny real x86-64 (AT&T syntax, preprocessed .S) function returning 0."""
+    return ('/* generated */\n    .text\n    .globl ' + sym + '\n' + sym + ':\n    xorl %eax, %eax\n    ret\n'
+            '    .section .note.GNU-stack,"",@progbits\n')
+
+
 class Item:
     """One generated target."""
 
@@ -451,8 +457,22 @@ class ProjectGen:
                 it.deps.append(o.id)
                 self.features.add('extract_all_objects')
         nsrc = r.choice([1, 1, 2, 3])
-        own = [self.c_source(it, k, main=(kind == 'exe' and k == 0), calls=calls if k == 0 else [], includes=[])
-               for k in range(nsrc)]
+        asm_only = kind != 'exe' and r.random() < 0.07
+        if asm_only:
+            # a library made of one assembly source (never unity-compiled)
+            fn = f'{it.id}_asm.S'
+            self.add_file(it.sp, it.dir, fn, asm_source(f'fn_{it.id}_0'))
+            own = [fn]
+            nsrc = 1
+            self.features.add('asm-only-library')
+        else:
+            own = [self.c_source(it, k, main=(kind == 'exe' and k == 0), calls=calls if k == 0 else [], includes=[])
+                   for k in range(nsrc)]
+            if kind != 'exe' and r.random() < 0.06:
+                fn = f'{it.id}_extra.S'
+                self.add_file(it.sp, it.dir, fn, asm_source(f'fn_{it.id}_asm'))
+                own.append(fn)
+                self.features.add('asm-source')
         if nsrc > 1:
             self.features.add('multi-source')
         # a source from another directory with the same basename as one of ours
